@@ -72,6 +72,12 @@ def analyse(P, cases, index, impl, model):
             elif P.view(c, il) != P.view(c, ml):
                 if not P.known_disagreement(c, il, ml):
                     disagree.append(i)
+    for i, o in P.cross(cases, impl):
+        kf = P.known(cases[i], impl[i], o)
+        if kf:
+            known.setdefault(kf, []).append(i)
+        else:
+            fails.append((i, o))
     return {"fails": fails, "known": known, "disagree": disagree, "runner": runner, "hist": hist,
             "nontrivial": len(nontrivial)}
 
